@@ -1,0 +1,10 @@
+//go:build !verif
+
+package filecache
+
+import "io"
+
+// verifCrashPoint and verifWrapReader are verification hooks; without the `verif` build tag they do nothing.
+func verifCrashPoint(string) {}
+
+func verifWrapReader(r io.Reader) io.Reader { return r }
